@@ -163,6 +163,9 @@ TRANSLATORS = {
     "py2lean_ac.py": [],       # autocorr_1d_int (whole), autocorr_1d dispatcher, autocorr / autocorr_tyx wrappers
     "py2lean_tyx.py": [],      # ws2doptvplc_tyx (prange read as range; independence of the rows: C12)
     "py2lean_glue.py": [],     # accessor / utility control logic: _iteragg, get_calibration_indices, spi, to_linspace, mean_grp accessor
+    "py2lean_glue_period.py": [],  # .dekad accessor (Period / DekadPeriod / AccessorTimeBase) over the generated Dekad class; Anomalies
+    "py2lean_glue_px.py": [],    # croo (xarray pipeline onto Hdc/PyXr.lean), lroo / autocorr / mktrend accessors, rolling.sum, zonal.mean
+    "py2lean_glue_whit.py": [],  # Whittaker accessors: whits, whitsvc, whitswcv, whitint (kernel dispatch, argument slots, defaults, truthiness of p)
 }
 
 
